@@ -13,6 +13,7 @@ spec = {
               # "late_deps": [node…] — DirectoryNode dependencies, one per node, whose pattern matches that node's ordinary file;
               # "wrap": "top"|"mid"|"bottom" — position of a functools.wraps pass-through decorator in the decorator stack
               } ],
+  # optional: "mem_preset": bool — the shared in-memory nodes (mem_out / mem_in) are created with an initial value
   # optional: "data_via_link": bool — node paths are spelled through the symlink data_l -> data (C01 stream "spelling")
   "versions": {module: int},
   "inputs": {node: int}          # initial contents of non-product files
@@ -507,7 +508,8 @@ def materialise(root: Path, spec, clock: Clock | None = None):
     if any(t.get("mem_out") or t.get("mem_in") for t in spec["tasks"]):
         # in-memory nodes shared between task modules: one PythonNode object per producer id
         (root / "_verif_mem.py").write_text(
-            "from pytask import PythonNode\n_N = {}\n\ndef node(k):\n    if k not in _N:\n        _N[k] = PythonNode(name=f'mem{k}')\n    return _N[k]\n")
+            "from pytask import PythonNode\n_N = {}\n\ndef node(k):\n    if k not in _N:\n        _N[k] = PythonNode(name=f'mem{k}'"
+            + (", value=0" if spec.get("mem_preset") else "") + ")\n    return _N[k]\n")   # optional "mem_preset": the shared nodes start with a value
     (root / "data").mkdir(exist_ok=True)
     if spec.get("data_via_link") and not (root / "data_l").is_symlink():
         (root / "data_l").symlink_to("data", target_is_directory=True)
